@@ -3,9 +3,16 @@
    Layers: F = documented format (Format.v), S = abstract spec (Spec/SpecStep), I = model of the Rust (World.step'). *)
 From Coq Require Import List NArith Bool Arith Sorted.
 From Coq Require Import Strings.Byte.
-Require Import BS.Bytes BS.Common BS.Api BS.Layout BS.Format BS.FormatFacts BS.Spec BS.SpecStep.
-Require Import BS.FS BS.FSFacts BS.Meta BS.MetaFacts BS.Header BS.Reader BS.ReaderFacts BS.Index BS.Data BS.DataFacts BS.Seek BS.Series BS.SeriesFacts.
+Require Import BS.Bytes BS.Common BS.Api BS.Layout BS.Format BS.FormatFacts BS.Spec BS.SpecStep BS.Sections.
+Require Import BS.FS BS.FSFacts BS.Meta BS.MetaFacts BS.Header BS.Reader BS.ReaderFacts BS.Index BS.Data BS.DataFacts BS.Seek BS.SeekFacts BS.Series BS.SeriesFacts BS.ReadAllFacts.
 Import ListNotations.
 
-(* theorems for this property are added as the development grows; until then the property is
-   decided by the judge (Layer S/F, extracted) on the implementation and by the correspondence check *)
+(* (I) the line estimate of a cache level never panics (saturating subtraction after the fix), except in the
+   combination the Rust marks unreachable!() *)
+Theorem C11_estimate_total : forall r p dl,
+  (match start_area_ r, end_area_ r with STillEnd _, EWindow _ _ => False | _, _ => True end) ->
+  exists mx mn, estimate_lines r p dl = Ok (mx, mn).
+Proof. exact estimate_lines_total. Qed.
+Print Assumptions C11_estimate_total.
+(* whichever level the loop picks, the read on that level is props/C10.v applied to that level's series;
+   partial: the caches' own invariant (RepC) and the level loop are not proved yet. *)
